@@ -72,7 +72,8 @@ ASSUMPTIONS = [
     "for a list of distances the slices are matched to distances by their z "
     "label; the order of the slices along z is recorded, not asserted",
     "ifft(fft(a)) coordinates are compared for images whose coordinates "
-    "start at 0 (as load_image / detector_grid make them)",
+    "start at 0 (as load_image / detector_grid make them); one image with "
+    "shifted axes is kept as a recorded known finding",
     "tolerances marked 'scaled' are multiplied by 1 + (sum of |distances| "
     "involved) / lambda_m: the rounding error of the phase 2 pi d / lambda",
 ]
@@ -167,6 +168,9 @@ def cases(tier, seed):
         out.append({"id": "fftinv:shape=%s" % _sid(s), "kind": "fftinv",
                     "shape": list(s), "mode": mode, "tier": tier,
                     "_cost": 0.5 * n + 10})
+    # an image whose axes do not start at 0 (a region cut out of a frame)
+    out.append({"id": "fftinv:shifted-origin", "kind": "fftorigin",
+                "_cost": 1})
     for lay in LAYOUTS:
         out.append({"id": "fftinv-noshift:layout=%s" % lay,
                     "kind": "noshift", "layout": lay, "tier": tier,
@@ -808,6 +812,15 @@ def _run_fftinv(case, ck):
     return digest(*acc), {"fft_images": n_img}
 
 
+def _run_fftorigin(case, ck):
+    acc = []
+    cx = Ctx(ck, (4, 5), "aniso")          # origin (1.5, -2.25)
+    v = _layout(cx.image("dense_c"), "zxy")
+    _roundtrip(ck, v, True, "%s axes starting at (1.5, -2.25)" %
+               cx.label("dense_c"), acc, cx.spacing)
+    return digest(*acc), {"fft_images": 1}
+
+
 def _run_noshift(case, ck):
     tier = case["tier"]
     lay = case["layout"]
@@ -1128,6 +1141,7 @@ def _run_opts(case, ck):
 
 _KINDS = {"history": _run_history, "siunits": _run_siunits,
           "fftinv": _run_fftinv, "noshift": _run_noshift, "group": _run_group,
+          "fftorigin": _run_fftorigin,
           "linear": _run_linear, "list": _run_list, "opts": _run_opts}
 
 
